@@ -135,7 +135,41 @@ def rule_no_implicit_tx(ctx):
     ctx.floor("C13.d engine statements", n, 60)
 
 
+def rule_no_implicit_tx_calls(ctx):
+    """C13.e: nothing in the package begins, commits or rolls back on the user's behalf: the only callers of
+    begin/commit/rollback (engine methods, connection methods, or the SQL words) are the public commit()/rollback()."""
+    import ast
+
+    from ..model import norm
+
+    prog = ctx.prog
+    n = 0
+    for mname, m in prog.modules.items():
+        for qual, fn in m.functions.items():
+            public_tx = qual.split(".")[-1] in ("commit", "rollback")
+            for c in ast.walk(fn):
+                if not isinstance(c, ast.Call):
+                    continue
+                bad = None
+                if isinstance(c.func, ast.Attribute) and c.func.attr in ("begin", "commit", "rollback"):
+                    bad = f"`{norm(c)[:60]}`"
+                elif isinstance(c.func, ast.Attribute) and c.func.attr in ("execute", "sql") and c.args and isinstance(c.args[0], ast.Constant) \
+                        and isinstance(c.args[0].value, str) and c.args[0].value.strip().split(" ")[0].upper() in ("BEGIN", "COMMIT", "ROLLBACK", "START", "ABORT", "END"):
+                    bad = f"`{norm(c)[:60]}`"
+                if bad is None:
+                    continue
+                n += 1
+                ok = public_tx
+                ctx.ob("C13.e", f"{mname}.{qual}: {bad} is the public commit()/rollback()", ok, m.loc(c))
+                if not ok:
+                    ctx.violation("C13.e", mname, qual, f"implicit transaction control {norm(c.func)[:40]}", m.loc(c),
+                                  f"`{qual}` calls {bad}: fakesnow begins or ends a transaction on the user's behalf — an explicit transaction "
+                                  f"the session opened is committed or rolled back (or aborted by a nested BEGIN) without the user asking")
+    ctx.floor("transaction-control call sites (commit()/rollback())", n, 2)
+
+
 RULES = [
+    ("C13.e", rule_no_implicit_tx_calls, ("quick", "thorough")),
     ("C13.a", rule_handle, ("quick", "thorough")),
     ("C13.b", rule_shared_handle, ("quick", "thorough")),
     ("C13.c", rule_no_tx_mapping, ("quick", "thorough")),
